@@ -155,6 +155,15 @@ func verif_harness_C04_two_hits_cap_one() {
 	verifAttackBMCWith(1, 1)
 }
 
+// C03 — the boundary value workers=0 (held concretely, so that anything
+// counted by it has a concrete trip count), max-workers 1, one released hit:
+// the hit gets a worker — free capacity is used — and at most one is in flight.
+//
+//verif:harness engine=gobmc param.N=1..1 unwind=16 replay=none bmctimeout=1500 queries=cut,bad,growth:_attack_:busy:n_max_workers_0 thorough.bmctimeout=6000
+func verif_harness_C03_zero_initial_workers() {
+	verifAttackBMCWith(1, -2)
+}
+
 func verifAttackBMC() { verifAttackBMCWith(0, -1) }
 
 func verifAttackBMCWith(fixedMax uint64, fixedWorkers int64) {
@@ -166,6 +175,10 @@ func verifAttackBMCWith(fixedMax uint64, fixedWorkers int64) {
 	}
 	if fixedWorkers >= 0 {
 		verif_assume(a.workers == uint64(fixedWorkers))
+	}
+	if fixedWorkers == -2 {
+		verif_assume(a.workers == 0)
+		a.workers = 0
 	}
 	du := time.Duration(verif_nondet_i64("duration"))
 	tb := time.Duration(verif_time_bound())
